@@ -546,22 +546,6 @@ class ContainerValue:
         else:
             map_condition = cnds.NullCondition()
 
-        value = spec.pop("value", None)
-        if value is not None:
-            new_cond = cnds.ConditionLike.from_spec(value)
-            if not new_cond.is_value_like:
-                raise ValueError(
-                    'Conditions specified in the "value" specification '
-                    "must be value-like."
-                )
-            condition = condition & new_cond
-
-        # shorthand specs:
-        value_short_keys = [i for i in spec if i.startswith("value.")]
-        value_short_cond_specs = {i: spec.pop(i) for i in value_short_keys}
-        for spec_k, spec_v in value_short_cond_specs.items():
-            condition = condition & cnds.ConditionLike.from_spec({spec_k: spec_v})
-
         if cls == MapValue:
             # shorthand specs:
             key_short_keys = [i for i in spec if i.startswith("key.")]
@@ -632,6 +616,24 @@ class ContainerValue:
                         "must be key-like."
                     )
                 map_condition = map_condition & new_cond
+
+        # value conditions are combined last, as in the part constructors (`key`/`index`
+        # first, then `value`), so that a parsed part equals the one built by the constructor
+        value = spec.pop("value", None)
+        if value is not None:
+            new_cond = cnds.ConditionLike.from_spec(value)
+            if not new_cond.is_value_like:
+                raise ValueError(
+                    'Conditions specified in the "value" specification '
+                    "must be value-like."
+                )
+            condition = condition & new_cond
+
+        # shorthand specs:
+        value_short_keys = [i for i in spec if i.startswith("value.")]
+        value_short_cond_specs = {i: spec.pop(i) for i in value_short_keys}
+        for spec_k, spec_v in value_short_cond_specs.items():
+            condition = condition & cnds.ConditionLike.from_spec({spec_k: spec_v})
 
         label = spec.pop("label", None)
         if spec:
